@@ -300,6 +300,14 @@ def worker(args):
                     if got1 not in empty and dict(got1 or {}) != {}:
                         rec.violation("type_without_getter_returned_data", dict(case, sid=e1, call=who), repr(got1)[:200])
                 break
+        # or-lists whose alternatives OVERLAP (every entity is denoted twice), over levels with and without a Getter: the typed searches
+        # of one Getter are then interleaved with searches of types that have none
+        proj = ents[0].split("/")[0] if ents else "*"
+        for d in (2, 3, 4, 5):
+            for first in ("*,%s" % proj, "%s,*" % proj):
+                rec.ev()
+                rec.count("overlapping_alternatives_searches")
+                check_get(rec, lab, conf, store, lab.default_config, first + "/*" * (d - 1), None, "str", case)
         # searches on types configured without getter
         for s in ("*", "*/*", "*/*/*"):
             rec.ev()
